@@ -1,7 +1,8 @@
 -------------------------------- MODULE Mono --------------------------------
 (***************************************************************************)
 (* The instantiation worklist of monomorphisation (mono.rs: Ctx with       *)
-(* instances, queued, work, out; ensure_instance; the pop loop).            *)
+(* instances, queued, work, out, too_large; ensure_instance; the pop loop   *)
+(* of mono_checked).                                                         *)
 (*                                                                          *)
 (* A program is an abstract call graph: generic functions with one type     *)
 (* parameter; each call edge f -> g carries a transformer saying which type *)
@@ -11,93 +12,125 @@
 (* which is all that matters for termination and naming.  `main` calls some *)
 (* functions at depth 0.                                                    *)
 (*                                                                          *)
-(* Actions mirror the code: Seed (mono of the roots), Pop (take the front   *)
-(* of `work`, emit the instance into `out`, call Ensure for every edge),    *)
-(* Ensure (look up `instances`; else name it, record it, and queue it       *)
-(* unless already `queued`; Refuse when the instance asked for is beyond the *)
-(* size bound -- polymorphic recursion).  Dedup = FALSE removes the          *)
-(* `queued`/`instances` test and is the self-test: Once must then fail.      *)
+(* The actions are the critical sections of the code, one each:             *)
+(*   EnsureOne(c, big)  ensure_instance for one call found in a body: a hit *)
+(*                      in `instances`; refused (too_large is set, nothing  *)
+(*                      is recorded) when its type arguments are beyond the *)
+(*                      bound; else named, and queued unless already queued *)
+(*   Seed               the roots have all been passed to ensure_instance    *)
+(*   PopTo(P)           pop_front: the instance becomes `cur`, and P is the  *)
+(*                      set of calls its body makes (mono_expr will pass     *)
+(*                      each to ensure_instance)                             *)
+(*   Emit               out.push(cur) once the body has been transformed     *)
+(*   Finish             the worklist is empty: Err if too_large, else Ok     *)
+(* The parameters (c, big, P) are what the abstract program supplies here    *)
+(* and what a recorded event supplies in MonoTrace.tla, which validates the  *)
+(* hook events of the real pass (crates/compiler/src/mono.rs under           *)
+(* --cfg goml_verif) against these same actions.                             *)
+(* Dedup = FALSE removes the `queued`/`instances` test and is the self-test: *)
+(* Once must then fail.                                                      *)
 (***************************************************************************)
 EXTENDS Integers, Sequences, FiniteSets, TLC
 
 CONSTANTS Fns,        \* set of generic function names
-          MaxDepth,   \* instantiation closure is cut at this nesting depth (models rejection of polymorphic recursion)
+          MaxDepth,   \* an instance deeper than this is refused (MAX_INSTANCE_TYPE_SIZE in the code)
           Dedup,      \* BOOLEAN: ensure_instance consults instances/queued
           NameFn      \* naming scheme: [Fns \X Nat -> names]; injective schemes keep instances apart
 
 Xf == {"same", "wrap", "const"}
+None == <<>>
 
 VARIABLES edges,     \* [Fns -> SUBSET (Fns \X Xf)]  chosen in Init (the program)
           roots,     \* SUBSET Fns: functions main calls at depth 0
-          instances, \* set of <<f, d>> already named
-          queued, work, out, pending, st
+          instances, \* set of instances already named
+          queued, work, out,
+          pending,   \* calls of the body being transformed that ensure_instance has not seen yet
+          cur,       \* the instance popped and not yet pushed to `out`, or None
+          tooLarge,  \* Ctx.too_large.is_some()
+          st         \* "seed" | "run" | "done" | "refused"
 
-vars == <<edges, roots, instances, queued, work, out, pending, st>>
+vars == <<edges, roots, instances, queued, work, out, pending, cur, tooLarge, st>>
+prog == <<edges, roots>>
 
 Apply(x, d) == CASE x = "same" -> d [] x = "wrap" -> d + 1 [] x = "const" -> 0
+CallsOf(c) == {<<e[1], Apply(e[2], c[2])>> : e \in edges[c[1]]}
+
+InitWork ==
+  /\ instances = {} /\ queued = {} /\ work = <<>> /\ out = <<>>
+  /\ cur = None /\ tooLarge = FALSE /\ st = "seed"
 
 Init ==
   /\ edges \in [Fns -> SUBSET (Fns \X Xf)]
   /\ \A f \in Fns : Cardinality(edges[f]) <= 2
   /\ roots \in (SUBSET Fns) \ {{}}
-  /\ instances = {} /\ queued = {} /\ work = <<>> /\ out = <<>>
   /\ pending = {<<f, 0>> : f \in roots}      \* calls found in main, still to be passed to ensure_instance
-  /\ st = "seed"
+  /\ InitWork
 
-\* ensure_instance(f, d) for one pending call
-Ensure ==
-  /\ pending # {}
-  /\ \E c \in pending :
-       /\ pending' = pending \ {c}
-       /\ IF Dedup /\ c \in instances THEN UNCHANGED <<instances, queued, work>>
-          ELSE /\ instances' = instances \cup {c}
-               /\ IF Dedup /\ c \in queued THEN UNCHANGED <<queued, work>>
-                  ELSE queued' = queued \cup {c} /\ work' = Append(work, c)
-  /\ UNCHANGED <<edges, roots, out, st>>
+\* ensure_instance for the call c; `big` says whether its type arguments exceed the bound
+EnsureOne(c, big) ==
+  /\ st \in {"seed", "run"}
+  /\ pending' = pending \ {c}
+  /\ IF Dedup /\ c \in instances THEN UNCHANGED <<instances, queued, work, tooLarge>>
+     ELSE IF big THEN tooLarge' = TRUE /\ UNCHANGED <<instances, queued, work>>
+     ELSE /\ instances' = instances \cup {c}
+          /\ tooLarge' = tooLarge
+          /\ IF Dedup /\ c \in queued THEN UNCHANGED <<queued, work>>
+             ELSE queued' = queued \cup {c} /\ work' = Append(work, c)
+  /\ UNCHANGED <<prog, out, cur, st>>
 
-Seed == st = "seed" /\ pending = {} /\ st' = "run" /\ UNCHANGED <<edges, roots, instances, queued, work, out, pending>>
+Seed == /\ st = "seed" /\ pending = {} /\ st' = "run"
+        /\ UNCHANGED <<prog, instances, queued, work, out, pending, cur, tooLarge>>
 
-\* pop_front: emit the instance, discover the instances its body calls
-Pop ==
-  /\ st = "run" /\ pending = {} /\ work # <<>>
-  /\ LET c == Head(work) IN
-     /\ work' = Tail(work)
-     /\ out' = Append(out, c)
-     /\ pending' = {<<e[1], Apply(e[2], c[2])>> : e \in edges[c[1]]}
-  /\ UNCHANGED <<edges, roots, instances, queued, st>>
+\* pop_front; P = the calls made by the body of the popped instance
+PopTo(P) ==
+  /\ st = "run" /\ pending = {} /\ cur = None /\ work # <<>>
+  /\ cur' = Head(work) /\ work' = Tail(work) /\ pending' = P
+  /\ UNCHANGED <<prog, instances, queued, out, tooLarge, st>>
 
-Done == st = "run" /\ pending = {} /\ work = <<>>
-Diverged == \E c \in pending : c[2] > MaxDepth     \* polymorphic recursion: the closure is infinite
-Refused == st = "refused"
+Emit ==
+  /\ st = "run" /\ cur # None /\ pending = {}
+  /\ out' = Append(out, cur) /\ cur' = None
+  /\ UNCHANGED <<prog, instances, queued, work, pending, tooLarge, st>>
 
-\* ensure_instance refuses an instance whose type arguments are larger than the bound (MAX_INSTANCE_TYPE_SIZE in the code,
-\* MaxDepth here) and monomorphisation ends with an error: the worklist of a program with polymorphic recursion never drains
-Refuse == Diverged /\ ~Refused /\ st' = "refused" /\ UNCHANGED <<edges, roots, instances, queued, work, out, pending>>
-EnsureStep == ~Diverged /\ ~Refused /\ Ensure
-SeedStep == ~Diverged /\ ~Refused /\ Seed
-PopStep == ~Diverged /\ ~Refused /\ Pop
-Idle == (Done \/ Refused) /\ UNCHANGED vars
-Next == EnsureStep \/ SeedStep \/ PopStep \/ Refuse \/ Idle
-Spec == Init /\ [][Next]_vars /\ WF_vars(EnsureStep \/ SeedStep \/ PopStep \/ Refuse)
+Finish ==
+  /\ st = "run" /\ cur = None /\ pending = {} /\ work = <<>>
+  /\ st' = IF tooLarge THEN "refused" ELSE "done"
+  /\ UNCHANGED <<prog, instances, queued, work, out, pending, cur, tooLarge>>
+
+Ended == st \in {"done", "refused"}
+Ensure == \E c \in pending : EnsureOne(c, c[2] > MaxDepth)
+Pop == PopTo(CallsOf(Head(work)))
+Idle == Ended /\ UNCHANGED vars
+Step == Ensure \/ Seed \/ Pop \/ Emit \/ Finish
+Next == Step \/ Idle
+Spec == Init /\ [][Next]_vars /\ WF_vars(Step)
 
 -----------------------------------------------------------------------------
 \* reachable instances, computed declaratively
-Reach1(S) == S \cup UNION {{<<e[1], Apply(e[2], c[2])>> : e \in edges[c[1]]} : c \in S}
+Reach1(S) == S \cup UNION {CallsOf(c) : c \in S}
 RECURSIVE ReachN(_, _)
 ReachN(S, n) == IF n = 0 THEN S ELSE LET T == Reach1(S) IN IF T = S THEN S ELSE ReachN(T, n - 1)
 Reachable == ReachN({<<f, 0>> : f \in roots}, Cardinality(Fns) * (MaxDepth + 2))
 Finite == \A c \in Reachable : c[2] <= MaxDepth
+OutSet == {out[i] : i \in DOMAIN out}
+WorkSet == {work[i] : i \in DOMAIN work}
 
 \* every instance is emitted at most once
 Once == \A i, j \in DOMAIN out : out[i] = out[j] => i = j
-\* when the worklist drains, exactly the reachable instances were emitted
-Complete == Done => {out[i] : i \in DOMAIN out} = Reachable
+\* the same statement by counting (linear; used on long recorded runs); OnceEquiv is checked with the model
+OnceC == Cardinality(OutSet) = Len(out)
+OnceEquiv == Once <=> OnceC
+\* when the pass succeeds, exactly the reachable instances were emitted
+Complete == st = "done" => OutSet = Reachable
 \* distinct instances get distinct names under the naming scheme
 Injective == \A a, b \in instances : NameFn[a] = NameFn[b] => a = b
-\* the worklist drains iff the closure is finite (within the bound)
-Terminates == Finite => <>Done
-NoDivergeIfFinite == Finite => ~Diverged
-\* every program ends: with all its instances, or refused -- and refused only when the closure really is infinite
-AlwaysEnds == <>(Done \/ Refused)
-RefusedOnlyIfInfinite == Refused => ~Finite
+\* the pass succeeds exactly when the instantiation closure is finite (within the bound), and is refused otherwise
+DoneIffFinite == (st = "done" => Finite) /\ (st = "refused" => ~Finite)
+\* bookkeeping of the code: every named instance is waiting, being transformed, or emitted -- nothing is lost or
+\* transformed twice; `queued` and `instances` always agree (the second test of ensure_instance is redundant)
+Bookkeeping == /\ (Dedup => queued = instances)
+               /\ (Dedup => instances = WorkSet \cup OutSet \cup (IF cur = None THEN {} ELSE {cur}))
+               /\ (Dedup => \A i \in DOMAIN work : work[i] \notin OutSet /\ work[i] # cur)
+\* every program ends: the worklist drains whether or not an instance was refused
+AlwaysEnds == <>Ended
 =============================================================================
